@@ -133,7 +133,7 @@ theorem expression_never_panics (fuel : Nat) (x : Expr) (σ σ' : ES) (e : XErr)
     non-constant are exactly these.  Each is accounted for: the `panic`s are in `Must*`/`NewSet`
     (documented API), in loaders' `Abs`, or behind conditions the parser excludes
     (`tagBlock*`, `variablePart.String`, `resolve`'s default case); the `*Error` assertions are on
-    values `FromFile` produces; `*Value` on a value whose type was just compared; the divisors are
+    values `FromFile` produces; `*Value` on values whose type was just compared with `*Value` (the resolver, and `IterateOrder` for the items of a list literal); the divisors are
     guarded by zero checks (`divisibleby`, `wordwrap`, `term.Evaluate`) or are lengths of
     non-empty lists (`cycle` after the parser check, `lorem`'s word list). -/
 theorem gen_panic_sites : Gen.panicSites =
@@ -141,6 +141,7 @@ theorem gen_panic_sites : Gen.panicSites =
      ("Must", "panic()"),
      ("MustApplyFilter", "panic()"),
      ("NewSet", "panic()"),
+     ("Value.IterateOrder", "assert *Value"),
      ("filterDivisibleby", "int % param.Integer()"),
      ("filterWordwrap", "int % wrapAt"),
      ("filterWordwrap", "int / wrapAt"),
